@@ -7,7 +7,8 @@ CONSTANTS
   Big = TRUE
   MaxStack = 8
   ResetKeepsMarkers = FALSE
-  IterMayNotPush = FALSE
+  IterMayNotPush = TRUE
+  PopStackByCount = FALSE
   MoveCmds = {"Move", "Zoom"}
   ReadCmds = {"Read", "Describe", "WhereAmI", "Toggle"}
 INVARIANTS TypeOK PosInExpr Export
